@@ -1,6 +1,8 @@
 """C10 - update/delete histories leave exactly the modelled content; ids never recycle."""
 import collections
+import os
 import shutil
+import tempfile
 import sqlite3
 import z3
 
@@ -300,10 +302,36 @@ def unit_update(U):
         it.call(C._DBCreator.__init__, [cr, "<data>", conn], {"_autoincrements": cnt, "id_spec": "ID"})
         cr2 = object.__new__(C._GFFDBCreator)
         it.call(C._DBCreator.__init__, [cr2, "<data>", conn], {"id_spec": "ID"})
-        return cr, cr2, cnt
+        # a database that has handed out no generated key yet passes an EMPTY map: it must be shared all the same,
+        # or the numbers its first update consumes are forgotten by the FeatureDB object
+        cnt0 = collections.defaultdict(int)
+        cr3 = object.__new__(C._GFFDBCreator)
+        it.call(C._DBCreator.__init__, [cr3, "<data>", conn], {"_autoincrements": cnt0, "id_spec": "ID"})
+        return cr, cr2, cnt, cr3, cnt0
+
+    def replay2(m):
+        # two successive updates with id-less features on a database whose features all carried ids
+        mk = lambda a, s: F.Feature(seqid="c", featuretype="exon", start=s, end=s + 5, attributes=a)
+        res = {}
+        for where in (":memory:", "file"):
+            d = tempfile.mkdtemp()
+            try:
+                fn = ":memory:" if where == ":memory:" else os.path.join(d, "x.db")
+                db = gffutils.create_db([F.Feature(seqid="c", featuretype="gene", start=1, end=90, attributes={"ID": ["g"]})], fn)
+                try:
+                    db.update([mk({}, 1), mk({}, 11)], make_backup=False)
+                    db.update([mk({}, 21)], make_backup=False)
+                    res[where] = sorted(f.id for f in db.all_features())
+                except Exception as ex:
+                    res[where] = "raised %r" % (ex,)
+            finally:
+                shutil.rmtree(d, ignore_errors=True)
+        exp = ["exon_1", "exon_2", "exon_3", "g"]
+        return {"inputs": "create_db([gene ID=g]); update([exon, exon]); update([exon])  (no ID attributes on the exons)", "expected": exp, "observed": res, "violates": any(v != exp for v in res.values())}
     for p in U.explore(run2, it):
-        ok = p.kind == "return" and p.value[0]._autoincrements is p.value[2] and isinstance(p.value[1]._autoincrements, collections.defaultdict) and len(p.value[1]._autoincrements) == 0
-        U.prove("C10.init.counters#p%d" % p.index, "'_autoincrements' given ==> the creator uses that very object (numbering continues); otherwise a fresh empty counter map", [], z3.BoolVal(bool(ok)), {})
+        ok = (p.kind == "return" and p.value[0]._autoincrements is p.value[2] and isinstance(p.value[1]._autoincrements, collections.defaultdict) and len(p.value[1]._autoincrements) == 0
+              and p.value[3]._autoincrements is p.value[4])
+        U.prove("C10.init.counters#p%d" % p.index, "'_autoincrements' given (even an empty map) ==> the creator uses that very object (numbering continues); otherwise a fresh empty counter map", [], z3.BoolVal(bool(ok)), {}, replay=replay2)
 
     def run3(ctx):
         conn = ghostdb.GhostConn()
